@@ -1,5 +1,5 @@
 (* C07 — SSM serial optimiser returns minimising levels and their true expected cost.
-   Statements only; every proof is [exact <lemma of Alg/SSM_proofs.v>].
+   Statements only; every proof is [exact <lemma of Alg/SSM_proofs.v, Alg/SSMCost_proofs.v or Alg/SSMOpt_proofs.v>].
    Model: Alg/SSM.v ([ssm] = the stage loop of stockpyl.ssm_serial.optimize_base_stock_levels on an integer-spaced
    grid, stages in the code's internal order 1 = downstream .. N = upstream; [ssm_params] adds the node re-indexing
    of _preprocess_parameters). Grid bounds, mean and per-stage (d, fd) tables are inputs (they come from SciPy).
